@@ -385,7 +385,7 @@ func (s *verifC38Sim) genOp(rt *rapid.T) verifC38Op {
 		"withdraw", "withdraw", "withdraw",
 		"claimRewards", "claimRewards", "claimRewards", "claimRewards",
 		"reDelegateRewards", "reDelegateRewards",
-		"updateRewards", "updateRewards", "updateRewards", "updateRewards", "updateRewards",
+		"updateRewards", "updateRewards", "updateRewards", "updateRewards", "updateRewards", "updateRewards", "updateRewards",
 		"advanceEpoch", "advanceEpoch", "advanceEpoch",
 		"changeServiceFee", "ownerNodes", "ownerConfig",
 	}
@@ -410,9 +410,9 @@ func (s *verifC38Sim) genOp(rt *rapid.T) verifC38Op {
 	case "withdraw":
 		op.Actor = s.pickActor(rt, func(d verifC38Delegator, _ int) bool { return d.unstaked.Sign() > 0 })
 	case "claimRewards", "reDelegateRewards":
-		op.Actor = s.pickActor(rt, func(d verifC38Delegator, _ int) bool { return d.exists })
+		op.Actor = s.pickActor(rt, func(d verifC38Delegator, _ int) bool { return d.exists && d.active.Sign() > 0 })
 	case "updateRewards":
-		op.Value = rapid.SampledFrom([]int64{0, 1, 7, 100, 999, 1000, 12345, 1000003}).Draw(rt, "rewards")
+		op.Value = rapid.SampledFrom([]int64{0, 1, 7, 100, 999, 1000, 12345, 12345, 1000003, 1000003}).Draw(rt, "rewards")
 	case "advanceEpoch":
 		op.Value = int64(rapid.IntRange(1, 3).Draw(rt, "epochs"))
 	case "changeServiceFee":
@@ -478,7 +478,7 @@ func verifC38Report(c *kit.Case, findings []verifC38Finding, s *verifC38Sim) {
 }
 
 func TestVerifC38_Histories(t *testing.T) {
-	kit.Run(t, "C38", kit.Budget{Quick: 400, Thorough: 4000, Steps: 40},
+	kit.Run(t, "C38", kit.Budget{Quick: 400, Thorough: 4000, Steps: 55},
 		"one delegation contract (owner + 2-4 delegators) over the real validator/staking contracts and vmContext; histories of delegate (amounts around the minimum, node-price sized), unDelegate (partial, full, leaving dust, too much), withdraw, claimRewards, reDelegateRewards, updateRewards by the end-of-epoch caller (at most once per epoch), epoch advances 1-3, changeServiceFee, owner node operations (0-2 nodes) and config changes; unbond period 0-3 epochs; flags staking-v2-late / re-delegate-below-min / unbond-tokens-v2 / delegation-manager drawn per case; the five clauses are evaluated on the decoded committed storage after every call; non-trivial = history with unDelegate -> later epoch -> withdraw that pays out AND a paying claimRewards after >= 2 reward epochs with a stake change between reward epochs",
 		func(rt *rapid.T, c *kit.Case) {
 			cfg := verifC38GenCfg(rt)
